@@ -2324,8 +2324,10 @@ where
                     // Expand 1-bit samples to 0/255 bytes for all frames
                     let frame_pixels = (rows as usize) * (cols as usize);
                     let frame_samples = frame_pixels * (samples_per_pixel as usize);
-                    let frame_size = frame_samples / 8;
-                    let frame_size_all = frame_size * (number_of_frames as usize);
+                    // samples are packed continuously,
+                    // with no padding bits between frames
+                    let samples_all = frame_samples * (number_of_frames as usize);
+                    let frame_size_all = samples_all.div_ceil(8);
 
                     let frame_data = data.get(0..frame_size_all).context(FrameOutOfRangeSnafu {
                         frame_number: frame_size_all as u32,
@@ -2476,26 +2478,35 @@ where
                 // Non-encoded, just return the pixel data for a single frame
                 let frame_pixels = (rows as usize) * (cols as usize);
                 let frame_samples = frame_pixels * (samples_per_pixel as usize);
-                let frame_size = if bits_allocated == 1 {
-                    frame_samples / 8
+                // 1-bit samples are packed continuously across frames,
+                // so a frame may start and end in the middle of a byte
+                let (frame_offset, frame_end, leading_bits) = if bits_allocated == 1 {
+                    let first_bit = frame_samples * (frame as usize);
+                    (
+                        first_bit / 8,
+                        (first_bit + frame_samples).div_ceil(8),
+                        first_bit % 8,
+                    )
                 } else {
-                    frame_samples * (bits_allocated.div_ceil(8) as usize)
+                    let frame_size = frame_samples * (bits_allocated.div_ceil(8) as usize);
+                    let frame_offset = frame_size * (frame as usize);
+                    (frame_offset, frame_offset + frame_size, 0)
                 };
-                let frame_offset = frame_size * (frame as usize);
 
                 let data = p.to_bytes();
 
-                let frame_data = data.get(frame_offset..frame_offset + frame_size).context(
-                    FrameOutOfRangeSnafu {
-                        frame_number: frame,
-                    },
-                )?;
+                let frame_data =
+                    data.get(frame_offset..frame_end)
+                        .context(FrameOutOfRangeSnafu {
+                            frame_number: frame,
+                        })?;
 
                 if bits_allocated == 1 {
                     // Map every bit in each byte to a separate byte of either 0 or 255
                     frame_data
                         .iter()
                         .flat_map(|&byte| (0..8).map(move |bit| ((byte >> bit) & 1) * 255))
+                        .skip(leading_bits)
                         .take(frame_pixels)
                         .collect()
                 } else {
